@@ -228,6 +228,14 @@ impl<Read: ReadHalf> ReadConnection<Read> {
     pub async fn verif_read_from_socket(&mut self) -> Result<()> {
         self.read_from_socket().await
     }
+
+    /// Forwarder to the private `read_message`.
+    pub async fn verif_read_message<'m, M>(&'m mut self) -> Result<M>
+    where
+        M: Deserialize<'m> + Debug,
+    {
+        self.read_message::<M>().await
+    }
 }
 
 #[cfg(test)]
